@@ -651,6 +651,9 @@ func (s *Server) handleLCPTermRequest(session *Session, pkt *LCPPacket) {
 
 	// Terminate session
 	session.SetState(StateClosed)
+	if s.clientIPPool != nil {
+		s.clientIPPool.Release(session.SessionID)
+	}
 	s.sessions.RemoveSession(session.ID)
 }
 
